@@ -86,6 +86,12 @@ impl<K> KeyHashDate<K> {
     pub(crate) fn entry_info(&self) -> &EntryInfo<K> {
         &self.entry_info
     }
+
+    /// Returns `true` if this deque node element was created for the entry having
+    /// the given `EntryInfo`.
+    pub(crate) fn is_node_of(&self, entry_info: &TrioArc<EntryInfo<K>>) -> bool {
+        TrioArc::ptr_eq(&self.entry_info, entry_info)
+    }
 }
 
 pub(crate) struct KvEntry<K, V> {
